@@ -30,13 +30,7 @@ fn index_set(left: Object, index: Object, value: Object) -> (r: Result<Object, E
 { unimplemented!() }
 
 impl Object {
-    // PROVED-BY: unit c06_arith (verbatim body of Object::checked_int)
-    #[verifier::external_body]
-    pub fn checked_int(value: Option<isize>) -> (r: Result<Object, Error>)
-        ensures
-            (value is Some && MIN_INT <= value->Some_0 <= MAX_INT) ==> (r is Ok && spec_tag(r->Ok_0) == Type::Int && spec_int(r->Ok_0) == value->Some_0),
-            !(value is Some && MIN_INT <= value->Some_0 <= MAX_INT) ==> r is Err,
-    { unimplemented!() }
+//@ASSUMES unit=c06_arith.rs fn=checked_int full=1
     // PROVED-BY: O15.8b c15_array_roundtrip (bounded), O03.1
     #[verifier::external_body]
     pub fn array(value: Vec<Object>, gc: &mut GC) -> (o: Object)
